@@ -23,7 +23,10 @@ from .util import all_terms, call_name, call_recv, method_calls, none_test
 def parser_eval(ctx: Ctx) -> Evaluator:
     def build():
         def pol(fi: FunctionInfo, depth: int) -> bool:
-            return depth < 6 and (fi.kind == 'classmethod' or fi.module.name == 'hpl.parser' or fi.name.startswith('_convert')) and default_inline(fi, depth)
+            definitional = fi.kind == 'property' and fi.cls is not None and not any(b.name == 'HplAstObject' for b in fi.cls.mro())
+            if fi.name in ('_convert_unary_operator', '_convert_binary_operator', '_convert_function_def'):
+                return False  # table lookups: summarised by G3 / T1 / T2, matched by name in F1
+            return depth < 6 and (fi.kind == 'classmethod' or fi.module.name == 'hpl.parser' or fi.name.startswith('_convert') or definitional) and default_inline(fi, depth)
         return Evaluator(ctx.model, inline=pol)
     return ctx.memo('parser_eval', build)
 
